@@ -47,7 +47,10 @@ Fixpoint wx_scan (fuel : nat) (q : N) (s : str) : option (str * str) :=
             | [] => None
             | e :: r2 =>
                 let simple (ch : N) := match wx_scan f q r2 with Some (t, rest) => Some (ch :: t, rest) | None => None end in
-                if e =? 114 then simple 13
+                (* a line continuation adds nothing: backslash + LF / LS / PS / CR / CR LF *)
+                if (e =? 10) || (e =? 8232) || (e =? 8233) then wx_scan f q r2
+                else if e =? 13 then wx_scan f q (match r2 with c2 :: r3 => if c2 =? 10 then r3 else r2 | [] => r2 end)
+                else if e =? 114 then simple 13
                 else if e =? 110 then simple 10
                 else if e =? 116 then simple 9
                 else if e =? 98 then simple 8
